@@ -481,7 +481,7 @@ DoExec(s) ==
       fo == IF isLet /\ ~F.opened THEN [frames EXCEPT ![Top].opened = TRUE, ![Top].sc = cur] ELSE frames
   IN IF ~HasTmpl(s.n2)
      THEN IF isLet
-          THEN /\ Raise("template", s.id) /\ heap' = ls.heap /\ cur' = ls.cur /\ frames' = fo
+          THEN /\ Raise("template-exec", s.id) /\ heap' = ls.heap /\ cur' = ls.cur /\ frames' = fo
                /\ UNCHANGED <<ctx, contents, content, bufs, writer, out, rv>>
           ELSE frames' = AdvancePC /\ UNCHANGED <<heap, cur, ctx, contents, content, bufs, writer, out, rv, err, mode>>
      ELSE LET ns == NewScope(ls.heap, ls.cur)
